@@ -83,6 +83,9 @@ enum Ev {
     ConfirmOpen { instr: usize, cid: String, t: i64 },
     /// a fill that opens / changes a position (for ClosePositions)
     Fill { instr: usize, buy: bool, t: i64 },
+    /// a full account snapshot of one exchange: names every instrument of the exchange, with the listed
+    /// orders reported Open (taken by the venue before it knew of anything not listed)
+    Snapshot { exchange: usize, listed: Vec<(usize, String)>, t: i64 },
     Trading(bool),
     /// the strategy's next algo batch (consumed on the next event processed with trading enabled)
     QueueAlgo(Vec<ReqSpec>),
@@ -315,6 +318,29 @@ fn run(case: &Case) -> Result<Outcome, V> {
                 OrderState::active(Open { id: barter_execution::order::id::OrderId::new(format!("x{cid}")), time_exchange: fixtures::t(*t), filled_quantity: Decimal::ZERO }),
             ),
             Ev::Fill { instr, buy, t } => fixtures::ev_trade(exch_of[*instr], *instr, &format!("f{idx}"), *t, if *buy { Side::Buy } else { Side::Sell }, Decimal::from(100), Decimal::ONE, Decimal::ZERO),
+            Ev::Snapshot { exchange, listed, t } => {
+                use barter_execution::{AccountEventKind, AccountSnapshot, InstrumentAccountSnapshot, order::{Order, OrderKind, TimeInForce}};
+                let instruments = (0..N_INSTR)
+                    .filter(|i| exch_of[*i] == *exchange)
+                    .map(|i| InstrumentAccountSnapshot {
+                        instrument: InstrumentIndex(i),
+                        orders: listed
+                            .iter()
+                            .filter(|(li, _)| *li == i)
+                            .map(|(_, cid)| Order {
+                                key: fixtures::order_key(*exchange, i, cid),
+                                side: Side::Buy,
+                                price: Decimal::from(100),
+                                quantity: Decimal::from(2),
+                                kind: OrderKind::Limit,
+                                time_in_force: TimeInForce::GoodUntilCancelled { post_only: false },
+                                state: OrderState::active(Open { id: barter_execution::order::id::OrderId::new(format!("x{cid}")), time_exchange: fixtures::t(*t), filled_quantity: Decimal::ZERO }),
+                            })
+                            .collect(),
+                    })
+                    .collect();
+                fixtures::ev_account(*exchange, AccountEventKind::Snapshot(AccountSnapshot { exchange: barter_instrument::exchange::ExchangeIndex(*exchange), balances: vec![], instruments }))
+            }
             Ev::Trading(on) => EngineEvent::TradingStateUpdate(if *on { TradingState::Enabled } else { TradingState::Disabled }),
             Ev::CmdOpen(reqs) => {
                 requested_by_command = reqs.iter().map(|r| rk_open(&to_open(r))).collect();
@@ -393,11 +419,12 @@ fn run(case: &Case) -> Result<Outcome, V> {
             *key_count.entry((r.instr, r.cid.clone())).or_insert(0) += 1;
         }
         // ... and the order an account event of this very tick reports on is changed by that event itself
-        let event_key: Option<(usize, String)> = match ev {
-            Ev::ConfirmOpen { instr, cid, .. } => Some((*instr, cid.clone())),
-            _ => None,
+        let event_keys: Vec<(usize, String)> = match ev {
+            Ev::ConfirmOpen { instr, cid, .. } => vec![(*instr, cid.clone())],
+            Ev::Snapshot { listed, .. } => listed.clone(),
+            _ => vec![],
         };
-        let ambiguous = |r: &Rk| key_count.get(&(r.instr, r.cid.clone())).copied().unwrap_or(0) > 1 || event_key == Some((r.instr, r.cid.clone()));
+        let ambiguous = |r: &Rk| key_count.get(&(r.instr, r.cid.clone())).copied().unwrap_or(0) > 1 || event_keys.contains(&(r.instr, r.cid.clone()));
 
         // (a) sent => delivered exactly once (per report), on the link of the exchange named in the request
         for s in &claims.sent {
@@ -495,13 +522,21 @@ fn run(case: &Case) -> Result<Outcome, V> {
                 return Err(("request_delivered_but_not_reported_sent", format!("event #{idx} {ev:?}: {unreported:?}")));
             }
         }
-        // every order entry that changed without an account event must be explained by a sent request
-        if is_command || matches!(ev, Ev::Market { .. } | Ev::Balance { .. } | Ev::Trading(_) | Ev::Shutdown) {
+        // every order entry that changed must be explained by a request delivered for it in this event or by
+        // an exchange report of this event that names it. In particular an order shown as in flight STAYS
+        // in flight ("from then on") across market items, balances, fills, toggles, commands about other
+        // orders and full account snapshots that do not list it.
+        {
             out.checks += 1;
             for key in orders_before.keys().chain(orders_after.keys()).collect::<BTreeSet<_>>() {
-                if orders_before.get(key) != orders_after.get(key) && !delivered.iter().any(|(_, d)| d.instr == key.0 && d.cid == key.1) {
-                    return Err(("order_marked_in_flight_without_delivery", format!("event #{idx} {ev:?}: entry {key:?} changed {:?} -> {:?} though nothing was delivered for it", orders_before.get(key), orders_after.get(key))));
+                if orders_before.get(key) != orders_after.get(key) && !delivered.iter().any(|(_, d)| d.instr == key.0 && d.cid == key.1) && !event_keys.contains(key) {
+                    let was_in_flight = orders_before.get(key).map(|s| s.contains("InFlight")).unwrap_or(false);
+                    let sig = if was_in_flight { "in_flight_mark_lost_without_exchange_report" } else { "order_marked_in_flight_without_delivery" };
+                    return Err((sig, format!("event #{idx} {ev:?}: entry {key:?} changed {:?} -> {:?} though nothing was delivered for it and the event does not report on it", orders_before.get(key), orders_after.get(key))));
                 }
+            }
+            if matches!(ev, Ev::Snapshot { .. }) && orders_before.iter().any(|(k, s)| s.contains("InFlight") && !event_keys.contains(k)) {
+                out.cells.insert("account_snapshot_not_listing_an_in_flight_order".into());
             }
         }
 
@@ -654,7 +689,16 @@ fn gen_case(rng: &mut Rng, pattern: u64) -> Case {
                 Ev::ConfirmOpen { instr: i, cid: c, t: clock }
             }
             33..=38 => Ev::Fill { instr: rng.usize_below(N_INSTR), buy: rng.bool(), t: clock },
-            39..=48 => Ev::Trading(rng.chance(3, 5)),
+            39..=42 => {
+                let exchange = rng.usize_below(N_EX);
+                let mine: Vec<(usize, String)> = known.iter().filter(|(i, _)| exch_of[*i] == exchange).cloned().collect();
+                let k = if mine.is_empty() { 0 } else { rng.range_u(0, 2.min(mine.len())) };
+                let mut listed: Vec<(usize, String)> = (0..k).map(|_| mine[rng.usize_below(mine.len())].clone()).collect();
+                listed.sort();
+                listed.dedup();
+                Ev::Snapshot { exchange, listed, t: clock }
+            }
+            43..=48 => Ev::Trading(rng.chance(3, 5)),
             49..=68 => {
                 let k = rng.range_u(1, 4);
                 Ev::QueueAlgo((0..k).map(|_| { let open = rng.chance(3, 5); mk_req(rng, &mut known, open) }).collect())
@@ -684,6 +728,95 @@ fn gen_case(rng: &mut Rng, pattern: u64) -> Case {
     }
     events.push(Ev::Shutdown);
     Case { links, start_enabled: rng.bool(), events }
+}
+
+// ------------------------------------------------------------------------------------------------
+// builder stage: links assembled by the library's own ExecutionBuilder (see vharness::builder_stage)
+
+use vharness::builder_stage::{self, BuilderCase, Claim};
+
+fn judge_builder(case: &BuilderCase) -> Result<(u64, u64, BTreeSet<String>), V> {
+    let obs = builder_stage::run_builder_case(case).map_err(|e| if e.starts_with("PANIC") { ("panic_in_engine_process", e) } else { ("HARNESS_builder_stage", e) })?;
+    let mut cells = BTreeSet::new();
+    let (mut events, mut checks) = (0u64, 0u64);
+    if let Some((x, call)) = obs.stray_calls.first() {
+        return Err(("request_delivered_but_not_reported_sent", format!("client of {:?} received a call matching no request: {call:?}", builder_stage::LIVE[*x])));
+    }
+    for o in &obs.reqs {
+        events += 1 + o.deliveries.len() as u64 + o.responses.len() as u64;
+        checks += 4;
+        let what = format!("{} {:?} for {:?} instrument #{} ({}) [exchange index {}, {}]", if o.req.open { "open" } else { "cancel" }, o.req.cid, o.exchange, o.instrument_index, o.name_exchange, o.exchange_index, if o.linked { "linked" } else { "NO link" });
+        // nothing may ever arrive at a client of another exchange
+        if let Some((x, call)) = o.deliveries.iter().find(|(x, c)| *x != o.slot || c.exchange != o.exchange) {
+            return Err(("request_delivered_to_wrong_link", format!("{what}: arrived at the client of {:?} addressed to {:?}", builder_stage::LIVE[*x], call.exchange)));
+        }
+        match (&o.claim, o.linked) {
+            (Claim::Sent, _) => {
+                if o.deliveries.len() != 1 {
+                    return Err(("request_reported_sent_but_not_delivered_exactly_once_to_its_link", format!("{what}: reported sent, delivered {} times (links built by ExecutionBuilder, {} of {} exchanges linked)", o.deliveries.len(), obs.n_linked, obs.n_exchanges)));
+                }
+                let want = if o.req.open { "OpenInFlight" } else { "CancelInFlight" };
+                if o.state_after.as_deref() != Some(want) {
+                    return Err((if o.req.open { "sent_open_not_shown_in_flight" } else { "sent_cancel_of_tracked_order_not_shown_in_flight" }, format!("{what}: reported sent, order entry is {:?}", o.state_after)));
+                }
+                cells.insert("builder:sent_and_delivered_to_own_client".to_string());
+                if obs.gap_before_linked {
+                    cells.insert("builder:linked_exchange_after_an_unlinked_one".to_string());
+                }
+            }
+            (Claim::Failed { unrecoverable }, linked) => {
+                if linked {
+                    return Err(("request_failed_on_healthy_link", format!("{what}: reported failed (unrecoverable={unrecoverable})")));
+                }
+                if !unrecoverable {
+                    return Err(("delivery_failure_error_class_wrong", format!("{what}: reported recoverable, expected fatal (the exchange has no link)")));
+                }
+                if !o.deliveries.is_empty() {
+                    return Err(("failed_request_was_delivered", format!("{what}: reported failed but delivered {:?}", o.deliveries)));
+                }
+                if o.req.open && !o.marked_on.is_empty() {
+                    return Err(("failed_request_left_in_flight_mark", format!("{what}: failed but the id is tracked on instruments {:?}", o.marked_on)));
+                }
+                if !o.audit_terminal {
+                    return Err(("audit_terminal_flag_wrong", format!("{what}: fatal delivery error but the audit is not terminal")));
+                }
+                cells.insert("builder:request_for_exchange_without_link_failed_fatally".to_string());
+            }
+            (Claim::NotReported, _) => {
+                return Err(("command_request_not_reported", format!("{what}: neither sent nor failed in the audit")));
+            }
+        }
+    }
+    Ok((events, checks, cells))
+}
+
+fn execute_builder(case: &BuilderCase, report: &mut Report) {
+    let h = fnv1a(format!("{case:?}").as_bytes());
+    match judge_builder(case) {
+        Ok((events, checks, cells)) => {
+            report.events_observed += events;
+            report.oracle_checks += checks;
+            let nontrivial = cells.contains("builder:sent_and_delivered_to_own_client") && cells.contains("builder:request_for_exchange_without_link_failed_fatally");
+            for c in &cells {
+                report.cover(c);
+            }
+            report.case(h, nontrivial);
+        }
+        Err((sig, detail)) if sig.starts_with("HARNESS_") => report.harness_errors.push(format!("{sig}: {detail}")),
+        Err((sig, detail)) => {
+            report.case(h, true);
+            let small = shrink(&case.requests, |cand| {
+                let c = BuilderCase { requests: cand.to_vec(), ..case.clone() };
+                matches!(judge_builder(&c), Err((s, _)) if s == sig)
+            });
+            let c = BuilderCase { requests: small, ..case.clone() };
+            let detail = match judge_builder(&c) {
+                Err((_, dd)) => dd,
+                Ok(_) => detail,
+            };
+            report.violation(sig, detail, json!({"builder_case": c}));
+        }
+    }
 }
 
 fn execute(case: &Case, report: &mut Report) {
@@ -722,9 +855,14 @@ fn main() {
     let args = Args::parse();
     if let Some(path) = &args.replay {
         let v: Value = serde_json::from_str(&std::fs::read_to_string(path).expect("read replay")).expect("json");
-        let case: Case = serde_json::from_value(v["history"]["case"].clone()).expect("case");
         let mut report = Report::new("C03");
-        execute(&case, &mut report);
+        if !v["history"]["builder_case"].is_null() {
+            let case: BuilderCase = serde_json::from_value(v["history"]["builder_case"].clone()).expect("builder case");
+            execute_builder(&case, &mut report);
+        } else {
+            let case: Case = serde_json::from_value(v["history"]["case"].clone()).expect("case");
+            execute(&case, &mut report);
+        }
         println!("{}", serde_json::to_string_pretty(&report.to_json()).unwrap());
         std::process::exit(if report.violation_count > 0 { 1 } else { 0 });
     }
@@ -733,6 +871,12 @@ fn main() {
         "tsan" => 128,
         _ => args.size(6_000, 500_000),
     };
+    let small = args.tier == "miri";
+    let n_builder = match args.tier.as_str() {
+        "miri" => 1,
+        "tsan" => 16,
+        _ => args.size(400, 20_000),
+    };
     let mut report = run_workers(&args, "C03", |w, n, rng, report| {
         let mine = Args::share(n_cases, w, n);
         for i in 0..mine {
@@ -740,6 +884,11 @@ fn main() {
             let pattern = (i * n as u64 + w as u64) % 128;
             let case = gen_case(rng, pattern);
             execute(&case, report);
+        }
+        // builder stage (links assembled by ExecutionBuilder, answers through the real managers)
+        for _ in 0..Args::share(n_builder, w, n) {
+            let case = builder_stage::gen_builder_case(rng, small);
+            execute_builder(&case, report);
         }
     });
     if args.tier != "miri" {
@@ -755,6 +904,10 @@ fn main() {
         }
         for c in [
             "cancel_of_tracked_order_sent",
+            "account_snapshot_not_listing_an_in_flight_order",
+            "builder:sent_and_delivered_to_own_client",
+            "builder:linked_exchange_after_an_unlinked_one",
+            "builder:request_for_exchange_without_link_failed_fatally",
             "event_processed_while_disabled",
             "command_while_disabled",
             "reenable_generates_on_that_event",
